@@ -384,9 +384,10 @@ def gen_object(rng, n_enums, big=False):
 
 
 PALETTES_FOR = {
-    "table": [None, None, {"cls": "red"}, {"cls": "sub"}, {"cls": "red", "obj": True}, {"cls": "sub", "obj": True}],
+    "table": [None, None, {"cls": "red"}, {"cls": "sub"}, {"cls": "red", "obj": True}, {"cls": "sub", "obj": True},
+              {"cls": "theme_a"}, {"cls": "theme_b"}, {"cls": "theme_b", "obj": True}],
     "pp": [None, None, {"cls": "altpp"}, {"cls": "altpp", "obj": True}, {"cls": "PPPalette", "synced": True},
-           {"cls": "altpp", "synced": True}],
+           {"cls": "altpp", "synced": True}, {"cls": "pptheme_a"}, {"cls": "pptheme_b"}],
     "ghist": [None, None, {"cls": "altghist"}, {"cls": "GHistPalette", "synced": True}],
     "recfmt": [None, None, {"cls": "altrec"}],
     "hdoc": [None],
